@@ -1144,7 +1144,8 @@ void Circuit::removeConstSelectMuxes(Subnet &subnet)
 					HCL_ASSERT(constNode->getValue().size() < 64);
 					std::uint64_t selDefined = constNode->getValue().extractNonStraddling(sim::DefaultConfig::DEFINED, 0, constNode->getValue().size());
 					std::uint64_t selValue = constNode->getValue().extractNonStraddling(sim::DefaultConfig::VALUE, 0, constNode->getValue().size());
-					if ((selDefined ^ (~0ull >> (64 - constNode->getValue().size()))) == 0) {
+					// A defined selector beyond the last data input yields undefined in simulation, there is no input to bypass to: leave such a mux alone.
+					if ((selDefined ^ (~0ull >> (64 - constNode->getValue().size()))) == 0 && selValue + 1 < muxNode->getNumInputPorts()) {
 						dbg::log(dbg::LogMessage(muxNode->getGroup()) << dbg::LogMessage::LOG_INFO << dbg::LogMessage::LOG_POSTPROCESSING << "Removing mux " << muxNode << " because its selector is constant and defined.");
 						muxNode->bypassOutputToInput(0, 1+selValue);
 					}
